@@ -3,6 +3,7 @@ package main
 import (
 	"fmt"
 	"io"
+	"math"
 	"reflect"
 	"sync"
 	"sync/atomic"
@@ -151,7 +152,7 @@ func c09Round(c *mon.Ctx, r *mon.Rand) {
 							out.timers[k][n] = x
 							x.Record(time.Duration(g + 1))
 						case 3:
-							x := s.Histogram(name, tally.ValueBuckets{10, 20})
+							x := s.Histogram(name, c09KidSpec(k))
 							out.hists[k][n] = x
 							x.RecordValue(float64(g))
 						}
@@ -250,6 +251,19 @@ func c09Round(c *mon.Ctx, r *mon.Rand) {
 			}
 			if hsum != int64(N) {
 				bad("lost-first-use-sample", fmt.Sprintf("histogram %s%v: %d samples delivered, %d recorded", name, tags, hsum, N))
+			}
+			// every child scope uses its own bucket set, all of which collide in the
+			// root-wide bucket cache: the delivered bounds must be the child's own
+			sp := c09KidSpec(k)
+			for _, ev := range log {
+				if ev.Kind == mon.EvHistV && ev.Name == name && mon.TagsEqual(ev.Tags, tags) {
+					okHi := ev.Hi == sp[0] || ev.Hi == sp[1] || ev.Hi == math.MaxFloat64
+					okLo := ev.Lo == -math.MaxFloat64 || ev.Lo == sp[0] || ev.Lo == sp[1]
+					if !okHi || !okLo {
+						bad("first-use-histogram-foreign-bounds", fmt.Sprintf("histogram %s%v created with %v delivered bucket (%v,%v]", name, tags, sp, ev.Lo, ev.Hi))
+						break
+					}
+				}
 			}
 			gaugeOK := false
 			for _, ev := range log {
@@ -380,4 +394,12 @@ func c09Mix(c *mon.Ctx, r *mon.Rand) {
 	hits, inter, _ := inj.Stats.Report()
 	mergeStats(c, hits, inter)
 	c.Distinct(mon.Hash64(fmt.Sprint(desc, r.U64())))
+}
+
+// c09KidSpec gives child scope k its own two-bound value bucket set; all of
+// them have the same additive identity as {10, 20} (bits moved from the second
+// bound to the first).
+func c09KidSpec(k int) tally.ValueBuckets {
+	d := uint64(k) << 40
+	return tally.ValueBuckets{math.Float64frombits(math.Float64bits(10) + d), math.Float64frombits(math.Float64bits(20) - d)}
 }
